@@ -132,6 +132,12 @@ Definition run_declared (e : sexp) : option sexp :=
   end.
 
 (* ---- pacman ---- *)
+Definition atom_nat3 (a b c : sexp) : option (nat * nat * nat) :=
+  match atom_N a, atom_N b, atom_N c with
+  | Some a, Some b, Some c => Some (N.to_nat a, N.to_nat b, N.to_nat c)
+  | _, _, _ => None
+  end.
+Definition show_nat (n : nat) : sexp := show_N (N.of_nat n).
 Definition dec_strs (l : list sexp) : option (list string) := map_opt atom_bytes l.
 Definition dec_pstate (e : sexp) : option pstate :=
   match e with
@@ -166,16 +172,16 @@ Fixpoint run_ptasks (ts : list (pparams * bool)) (s : pst) : list sexp * pst :=
               show_bool (pr_upgraded res); SList (map enc_inv (plog s1))] :: out, s2)
   end.
 
-(* (pacman (db (INST...) (EXPL...) UPGRADABLE) (tasks PTASK...)) *)
+(* (pacman (db (INST...) (EXPL...) SYSVER DBVER UPSTREAM) (tasks PTASK...)) *)
 Definition run_pacman (e : sexp) : option sexp :=
   match e with
-  | SList [Atom "pacman"; SList [Atom "db"; SList inst; SList expl; up]; SList (Atom "tasks" :: ts)] =>
-      match dec_strs inst, dec_strs expl, atom_bool up, map_opt dec_ptask ts with
-      | Some inst, Some expl, Some up, Some ts =>
-          let '(out, s) := run_ptasks ts {| pdb := {| installed := inst; explicit := expl; upgradable := up |}; plog := [] |} in
+  | SList [Atom "pacman"; SList [Atom "db"; SList inst; SList expl; sv; dv; uv]; SList (Atom "tasks" :: ts)] =>
+      match dec_strs inst, dec_strs expl, atom_nat3 sv dv uv, map_opt dec_ptask ts with
+      | Some inst, Some expl, Some (sv, dv, uv), Some ts =>
+          let '(out, s) := run_ptasks ts {| pdb := {| installed := inst; explicit := expl; sysver := sv; dbver := dv; upstream := uv |}; plog := [] |} in
           Some (SList [SList (Atom "res" :: out);
                        SList [Atom "db"; enc_strs (installed (pdb s)); enc_strs (explicit (pdb s));
-                              show_bool (upgradable (pdb s))]])
+                              show_nat (sysver (pdb s)); show_nat (dbver (pdb s)); show_nat (upstream (pdb s))]])
       | _, _, _, _ => None
       end
   | _ => None
